@@ -1010,6 +1010,7 @@ fn model_identity(b: &Binding) -> String {
 
 static CURRENT_OP: std::sync::atomic::AtomicUsize = std::sync::atomic::AtomicUsize::new(0);
 static LAST_PANIC: Mutex<String> = Mutex::new(String::new());
+static PREPARING: std::sync::atomic::AtomicBool = std::sync::atomic::AtomicBool::new(false);
 
 /// A panic that escapes a registry operation or a search is the library failing the
 /// operation (a violation, located by the op in flight); a panic raised from the
@@ -1019,7 +1020,7 @@ fn run_history(ops: &[Op], stats: &mut Stats, verbose: bool) -> RunOut {
         Ok(o) => o,
         Err(_) => {
             let at = LAST_PANIC.lock().map(|s| s.clone()).unwrap_or_default();
-            if at.contains("regsim/src") || at.contains("simcore/src") || at.is_empty() {
+            if at.contains("regsim/src") || at.contains("simcore/src") || at.is_empty() || PREPARING.load(std::sync::atomic::Ordering::SeqCst) {
                 die(&format!("simulator panicked at {}", at));
             }
             let i = CURRENT_OP.load(std::sync::atomic::Ordering::SeqCst);
@@ -1188,11 +1189,16 @@ fn run_history_inner(ops: &[Op], stats: &mut Stats, verbose: bool) -> RunOut {
                     stats.bump("probe.call_through_default_runtime");
                 }
                 out.calls += 1;
+                // building the document and parsing the text are not registry matters: a
+                // panic in there is harness trouble (exit 2), not a C15 violation
+                PREPARING.store(true, std::sync::atomic::Ordering::SeqCst);
                 let data = match Variable::from_json(doc) {
                     Ok(v) => Rcvar::new(v),
                     Err(_) => Rcvar::new(Variable::Null),
                 };
-                let ast = match jmespath::parse(expr) {
+                let parsed = jmespath::parse(expr);
+                PREPARING.store(false, std::sync::atomic::Ordering::SeqCst);
+                let ast = match parsed {
                     Ok(a) => a,
                     Err(_) => {
                         // generator slip: not a C15 matter
